@@ -26,6 +26,20 @@ def check(tier, seed, only=None):
         ("submit", "proto", "reference_loose", "per_param"),
         ("submit", "tape", "reference_loose", "reference"),
     ], only)
+    # rolling hash: the contracts of init / reset / the scan loop (and, thorough, _rolling_hash2_run) express every result as a function of
+    # the ghost stream = API-defined state only (history[0..w) set by reset or left by the previous run), with the rest of the state object
+    # arbitrary; the bounded end-to-end run fills the state with garbage before init (added after seed C20_c)
+    from . import overlay, p_c09, rolling
+    try:
+        rj = rolling.jobs(os.path.join(runner.scratch(), "rolling"))
+        if tier == "quick":
+            rj = [j for j in rj if j.name != "rolling/run"]
+        if only:
+            rj = [j for j in rj if any(s in j.name for s in only.split(","))]
+        rep.add_job_results(runner.run_jobs(rj, prog))
+    except overlay.OverlayError as e:
+        rep.add_undecided("extraction broke (rolling): %s" % e)
+    p_c09.native_roll(rep, tier, seed)
     rep.default_replays()
     rep.assumptions.append("RESTRICTED TO C: entry values of registers, flags and dead stack of the NASM routines are out of reach")
     rep.notes.append("corollary: every contract's requires mentions API-defined state only; CBMC leaves all other bytes (context before FIRST, "
